@@ -252,6 +252,13 @@ class CostExec(SymExec):
                         rel.d1, rel.d2sq = const(0), const(0)
                     else:
                         rel.d1 = rel.d2sq = None
+                        from .taint import inplace_noise_passes
+                        passes = inplace_noise_passes(self.fi.node)
+                        if isinstance(dexpr, ast.Name) and passes and any(
+                                isinstance(lp_, ast.For) and dexpr.id in {n_.id for n_ in ast.walk(lp_.target) if isinstance(n_, ast.Name)}
+                                and U(lp_.iter.value if isinstance(lp_.iter, ast.Subscript) else lp_.iter) in passes for lp_ in ast.walk(self.fi.node)):
+                            raise AnalysisError('%s: noise is added IN PLACE to the elements of a container filled earlier (`%s` at line %d): what those '
+                                                'elements are, and how many, is not decided' % (self.fi.qualname, dexpr.id, getattr(e, 'lineno', 0)))
                         self.problem(e, 'release of a statistic with unknown sensitivity: `%s`' % U(dexpr)[:60])
                     self.record(rel)
                     return tagged('noisy', e)
@@ -792,6 +799,11 @@ def sum_over_loops(cost, rel, world, notes):
                     return None, 'cost depends on `%s`, which changes inside the loop at line %d' % (s_.split('@')[0], stmt.lineno)
             total = total * trip
         else:
+            if isinstance(stmt, ast.For) and isinstance(stmt.iter, ast.Subscript) and isinstance(stmt.iter.value, ast.Name):
+                from .taint import inplace_noise_passes
+                if stmt.iter.value.id in inplace_noise_passes(stmt):
+                    raise AnalysisError('noise is added IN PLACE to a slice of the container `%s` filled earlier (line %d): which of its elements the '
+                                        'slice covers, and how many, is not decided' % (stmt.iter.value.id, stmt.lineno))
             return None, 'release inside a loop with no closed-form trip count (line %d)' % stmt.lineno
         i -= 1
     return total, None
